@@ -970,7 +970,14 @@ pub fn c18(c: &Collector, g: &mut Guard) {
         }
     }
     c.count("stop_set_bases", bases.len() as u64);
-    sweep(c, &bases, |_| tab_ops(), |c, t, local| {
+    sweep(c, &bases, |_| {
+        let mut v = tab_ops();
+        // use the stops, reset, use them again (a cached view of the stops must not survive RIS / edits)
+        for chain in ["\t\x1bc\t", "\t\x1b[3g\r\t", "\t\x1bH\r\t\t", "\t\x1b[g\r\t", "\t\x1bc\x1b[5G\x1bH\r\t"] {
+            v.push(Op::Feed(vec![chain.to_string()], true));
+        }
+        v
+    }, |c, t, local| {
         if t.pre.tabstops.iter().any(|s| *s > t.pre.cursor.x) {
             local.count("ht_with_stop_to_the_right");
         } else {
@@ -1094,7 +1101,7 @@ pub fn c18(c: &Collector, g: &mut Guard) {
             seeds.push(Base { columns: w, lines: l, script: vec![], screen: s0 });
         }
     }
-    let st = bfs(
+    let st = crate::explore::bfs_nd(
         c,
         &seeds,
         bdepth,
@@ -1135,6 +1142,7 @@ pub fn c18(c: &Collector, g: &mut Guard) {
                 expand_ok(t)
             }
         },
+        |op| matches!(op, Op::Reset),
     );
     c.bound("bfs_levels", json!(st.levels));
     c.bound("bfs_depth", json!(bdepth));
@@ -1639,7 +1647,7 @@ fn rendition_bases(c: &Collector, all: bool) -> Vec<Base> {
                 }
                 attrs.extend_from_slice(fg);
                 attrs.extend_from_slice(bg);
-                let mut script = vec![Op::Draw("k".into())];
+                let mut script = vec![Op::Draw("kk".into())];
                 if !attrs.is_empty() {
                     script.push(Op::Sgr(attrs));
                 }
@@ -1679,6 +1687,15 @@ pub fn c08_judge(c: &Collector, t: &Trans, engine: &str, local: &mut Local) {
             }
             if !crate::snapshot::legal_colour(cell.fg.as_str()) || !crate::snapshot::legal_colour(cell.bg.as_str()) {
                 viol(c, "C08", engine, t, "illegal-colour", format!("cell drawn after SGR has colour {}/{}", cell.fg.as_str(), cell.bg.as_str()));
+            }
+        }
+        // a double-width character drawn over existing cells: both of its cells carry the rendition
+        let mut s3 = s.clone();
+        if apply(&mut s3, &Op::Cup(None, None)).is_ok() && apply(&mut s3, &Op::Draw("\u{30a2}".into())).is_ok() {
+            let sn = snap(&s3);
+            let (lead, ph) = (&sn.grid[0][0], &sn.grid[0][1]);
+            if *lead != post.cursor.attr.with_data("\u{30a2}") || *ph != post.cursor.attr.with_data("") {
+                viol(c, "C08", engine, t, "drawn-wide-cell-rendition", format!("wide character drawn after SGR: cells {:?} {:?}, expected rendition {:?}", lead, ph, post.cursor.attr));
             }
         }
     }
@@ -1802,6 +1819,9 @@ pub fn c08(c: &Collector, g: &mut Guard) {
             v.push(csi("38;2;1;2", 'm'));
             v.push(csi("38;5", 'm'));
             v.push(csi("99999999999999999999", 'm'));
+            for z in ["00001", "000031", "000048;00005;0000200", "000000", "0000038;000002;0000001;02;3", "00000000000000000007", "10000", "00009999"] {
+                v.push(csi(z, 'm'));
+            }
             with_poison(v)
         },
         |c, t, local| {
@@ -1963,6 +1983,13 @@ pub fn c20(c: &Collector, g: &mut Guard) {
             // char-level parser in 8-bit mode
             for s in ["\x1b(0q", "\x1b)0\x0eq\x0fq", "\x1b(U\u{e9}", "\x1b)V\x0e!"] {
                 v.push(Op::Feed(vec![s.to_string()], false));
+            }
+            // shifts / designators in odd places: inside a CSI, inside an OSC string, after ESC
+            for s in ["\x1b[\x0eHq", "\x1b[5\x0fCq", "\x0e\x1b[\x0fHq", "\x1b]0;a\x0eb\x07q", "\x1b\x0eq", "\x1b[\x1b(0q", "\x1b(\x0eq", "\x1b)0\x1b[\x0e;Hq"] {
+                v.push(Op::Feed(vec![s.to_string()], true));
+                v.push(Op::Feed(vec![s.to_string()], false));
+                v.push(Op::FeedBytes(vec![s.as_bytes().to_vec()], true));
+                v.push(Op::FeedBytes(vec![s.as_bytes().to_vec()], false));
             }
             v
         },
